@@ -302,19 +302,27 @@ def top_stmt_in(body, node):
 
 
 class Floor:
-    """require_count that counts reported failures as located sites: the floor only guards against a
-    matcher that silently finds nothing (a reported finding already makes the run non-passing)."""
+    """Guard against a matcher that silently recognises fewer constructs than were confirmed by hand.  The anchored functions
+    exist (a vanished function raises AnalysisError in repo.func), so a shortfall means the protected constructs changed shape:
+    that is reported as a finding (protection removed), not as an analysis error.  Nothing is added when a finding was
+    already reported in the section (the shortfall is then explained by it)."""
 
     def __init__(self, ctx, rule):
         self.ctx, self.rule = ctx, rule
         self.n0 = ctx.instances.get(rule, 0)
         self.f0 = len(ctx.findings)
+        self.fn0 = set(ctx.functions)
 
     def require(self, at_least, label=None):
+        from ..core import Site
         n = self.ctx.instances.get(self.rule, 0) - self.n0
-        nf = len(self.ctx.findings) - self.f0   # any finding: the run is already non-passing
-        if nf == 0:
-            self.ctx.require_count(label or (self.rule + " obligations"), n, at_least)
+        nf = len(self.ctx.findings) - self.f0
+        if nf == 0 and n < at_least:
+            touched = sorted(self.ctx.functions - self.fn0) or sorted(self.ctx.functions)
+            mod, _, qual = (touched[0] if touched else "mouette::?").partition("::")
+            self.ctx.fail(self.rule, Site(mod, qual, 0), f"{label or self.rule}: protected constructs not found",
+                          f"only {n} of the {at_least} obligations confirmed by hand could be located: the code the rule protects has "
+                          "changed shape and can no longer be vouched for")
         return n
 
 
